@@ -1,7 +1,7 @@
 (* C16/Props.v — property-level theorems only (statements + `exact`), each followed by Print Assumptions.
    Tags [FULL]/[PARTIAL]/[REFUTED] are read by bin/check. *)
 From Coq Require Import List NArith Bool.
-From BLB Require Import Lib.CRC Lib.CRCProofs C16.Model C16.Proofs.
+From BLB Require Import Lib.CRC Lib.CRCProofs C16.Model C16.Proofs C16.RetryModel C16.RetryProofs.
 Import ListNotations.
 Open Scope N_scope.
 
@@ -107,3 +107,18 @@ Theorem frame_rejected_then_silent :
     Forall (fun x => is_ok H B x = false) (recv_conn H B gdec_h gdec_b true s bufs).
 Proof. intros. split; [apply recv_conn_silent | apply recv_conn_broken]. Qed.
 Print Assumptions frame_rejected_then_silent.
+
+(* [FULL] connection level, pkg/rpc/connection_cache.go SendWithCancel over net/rpc. For every request payload and
+   every sequence of attempt outcomes in which, as net/rpc guarantees, an attempt failing with ErrShutdown wrote
+   nothing: every payload put on the wire and every payload a handler gets is byte-identical to the caller's,
+   and at most one attempt writes at all, i.e. a request is retried unchanged or not retried. A policy that also
+   retries after an unexpected EOF resends it with the payload gone, see RetryProofs.eof_retry_resends_consumed *)
+Theorem retry_never_resends_consumed_request :
+  forall (body : list byte) (atts : list attempt),
+    Forall rpc_law atts ->
+    let run := fst (swc retry_policy body atts) in
+    Forall (fun p => p = body) (wire_payloads run) /\
+    Forall (fun p => p = body) (handler_payloads run) /\
+    (length (wire_payloads run) <= 1)%nat.
+Proof. exact retry_never_resends_lemma. Qed.
+Print Assumptions retry_never_resends_consumed_request.
